@@ -848,6 +848,10 @@ func (g *gen) expr(kind string, depth int) any {
 		case 1:
 			return []any{"reverse", g.arg("list", depth-1)}
 		case 2:
+			if rapid.IntRange(0, 5).Draw(g.t, "bigsort") == 0 {
+				// keys that are neighbours beyond 2^53
+				return []any{"sort", []any{"list", int64(1<<53 + 1), int64(1 << 53), int64(1<<53 + 2), pick(g.t, []any{int64(5), int64(1<<60 + 1), int64(-(1 << 53) - 1)}, "bigkey")}, "@"}
+			}
 			return []any{"sort", g.arg(pick(g.t, []string{"list", "objlist"}, "k"), depth-1), pick(g.t, []any{"@.v", "@.k", "@", "@.t", "$.src.i1", int64(1)}, "sortkey")}
 		case 3:
 			return []any{"append", g.arg("list", depth-1), g.arg("any", depth-1)}
